@@ -565,8 +565,73 @@ fn fmt_cur(dec: &Decoder<Shared>) -> String {
     }
 }
 
+/// Upper bound on the memory a `G` case may need (output view + the whole encoded surface, which bounds the line
+/// buffer / plane-1 allocation); larger cases answer `skip` on both sides.
+const GIANT_MEM_CAP: u64 = 8 << 30;
+
+/// `G <format> <width> <height> <channels> <prec>`: one full `dds::decode` of a giant surface (sizes near `u32::MAX`) from
+/// an all-zero stream into a freshly allocated tight view with `memory_limit = usize::MAX`.  Regression tie of F17
+/// (`ChannelConversionBuffer::process_blocks`: `chunk_start + preferred_chunk_size` overflowed `u32` for widths within one
+/// chunk of 2^32).  Result `ok <bytes consumed>`; oracle: no panic, `Ok`, the reader delivered the whole surface.
+fn run_giant(t: &[&str]) -> Option<(String, Vec<String>)> {
+    if t.len() != 6 {
+        return None;
+    }
+    let format = all_formats().into_iter().find(|(n, _)| *n == t[1])?.1;
+    let w: u32 = t[2].parse().ok()?;
+    let h: u32 = t[3].parse().ok()?;
+    if w == 0 || h == 0 {
+        return None;
+    }
+    let channels = match t[4] {
+        "gray" => Channels::Grayscale,
+        "alpha" => Channels::Alpha,
+        "rgb" => Channels::Rgb,
+        "rgba" => Channels::Rgba,
+        _ => return None,
+    };
+    let precision = match t[5] {
+        "u8" => Precision::U8,
+        "u16" => Precision::U16,
+        "f32" => Precision::F32,
+        _ => return None,
+    };
+    let color = ColorFormat::new(channels, precision);
+    let size = Size::new(w, h);
+    let out_bytes = (w as u128) * (h as u128) * color.bytes_per_pixel() as u128;
+    let bytes = match PixelInfo::from(format).surface_bytes(size) {
+        Some(b) => b,
+        None => return Some(("MemoryLimitExceeded".into(), vec![])),
+    };
+    if out_bytes + bytes as u128 > GIANT_MEM_CAP as u128 {
+        return Some(("skip".into(), vec![]));
+    }
+    let mut oracle = vec![];
+    let mut out = vec![0u8; out_bytes as usize];
+    let image = ImageViewMut::new(&mut out, size, color)?;
+    let mut options = DecodeOptions::default();
+    options.memory_limit = usize::MAX;
+    let mut reader = std::io::repeat(0u8).take(bytes);
+    stage("giant decode");
+    let r = decode(&mut reader, image, format, &options);
+    let consumed = bytes - reader.limit();
+    let res = match &r {
+        Ok(()) => format!("ok {consumed}"),
+        Err(e) => dec_err_name(e),
+    };
+    if r.is_err() {
+        oracle.push(format!("giant decode of a {w}x{h} {format:?} surface failed: {res}"));
+    } else if consumed != bytes {
+        oracle.push(format!("giant decode returned Ok after {consumed} of {bytes} bytes"));
+    }
+    Some((res, oracle))
+}
+
 fn run_case(line: &str) -> Option<(String, Vec<String>)> {
     let t = toks(line);
+    if !t.is_empty() && t[0] == "G" {
+        return run_giant(&t);
+    }
     if t.len() < 6 || t[0] != "X" {
         return None;
     }
@@ -848,7 +913,9 @@ pub fn run(line: &str) -> Option<(String, Vec<String>)> {
             *w = None;
             return Some(("worker-died".into(), vec!["abort: the worker thread died".into()]));
         }
-        match wk.rx.recv_timeout(watchdog()) {
+        // a giant case fills 4 GiB of output: give it minutes, not seconds
+        let limit = if line.starts_with("G ") { watchdog().max(Duration::from_secs(900)) } else { watchdog() };
+        match wk.rx.recv_timeout(limit) {
             Ok(r) => r,
             Err(mpsc::RecvTimeoutError::Timeout) => {
                 // the stuck thread cannot be killed: abandon it, and give up on the process if it happens again
@@ -1584,6 +1651,16 @@ pub fn gen(seed: u64, thorough: bool) -> Vec<String> {
             let (o, fl) = g.opt_fl(file.len() as u64, false);
             g.push(&o, &fl, env, &file, Some((300, 3)), &ops);
         }
+    }
+
+    // ---- (g) giant surfaces (F17): widths within one conversion chunk of 2^32 through the block loops with a channel
+    // conversion; one case in the quick tier (R1_UNORM: 512 MiB encoded, 4 GiB output), the neighbours in thorough
+    g.out.push("G R1_UNORM 4294966273 1 alpha u8".to_string());
+    if thorough {
+        g.out.push("G R1_UNORM 4294966272 1 alpha u8".to_string());
+        g.out.push("G R1_UNORM 4294967295 1 alpha u8".to_string());
+        // 4 GiB output + 8 GiB encoded: above the cap, answered `skip` (kept as a record of the class)
+        g.out.push("G BC4_UNORM 4294967293 1 alpha u8".to_string());
     }
     g.out
 }
